@@ -530,6 +530,7 @@ pub open spec fn sharded_frame(old: World, fin: World, root: PathV, n: usize, na
                  '&& final(w).published == old(w).published' % BADNAME),
                 ('C12 C16:an-entry-is-only-ever-stored-under-one-of-its-two-candidate-shards',
                  'forall|p: PathV| #[trigger] final(w).files.contains_key(p) && !old(w).files.contains_key(p) ==> p == %s || p == %s' % (P1, P2)),
+                ('C18 C05:without-a-real-fault-a-failed-write-published-nothing', 'r.is_err() && final(w).hard_faults == old(w).hard_faults ==> final(w).published == old(w).published'),
                 ('C01 C03 C19:a-write-never-changes-the-bytes-of-any-file',
                  'bytes_kept(*old(w), *final(w))'),
                 ('C13 C11:success-means-a-publication-happened' + ('' if opname == 'set' else '-unless-the-key-was-already-bound'),
